@@ -446,7 +446,7 @@ def t4(chk):
     RC.attrs["__eq__"] = Builtin("eq", lambda s_, o: ("eq", un(s_), un(o)))
     e.models[f"{AN}:py"] = lambda it, a_, k_: a_[0]
     norm = lambda v: tuple(_math.pi if getattr(x, "name", None) == "math.pi" else x for x in v) if isinstance(v, tuple) else v  # noqa: E731
-    cases = {"__truediv__": (["K"], ("div", "H", "K")), "__rtruediv__": (["K"], ("div", "K", "H")), "__float__": ([], ("mul", "H", _math.pi)), "__eq__": (["OTHER"], ("eq", "H", "H2"))}
+    cases = {"__mul__": (["K"], ("mul", "H", "K")), "__rmul__": (["K"], ("mul", "H", "K")), "__truediv__": (["K"], ("div", "H", "K")), "__rtruediv__": (["K"], ("div", "K", "H")), "__float__": ([], ("mul", "H", _math.pi)), "__eq__": (["OTHER"], ("eq", "H", "H2"))}
     for name, (args, want) in cases.items():
         e.func_info(AN, f"angle.{name}")
 
@@ -456,9 +456,39 @@ def t4(chk):
             actual = [it.call(A, [mk("H2")], {}) if a_ == "OTHER" else mk(a_) for a_ in args]
             r = it.call_method(x, name, actual)
             return r.fields["halfturns"] if isinstance(r, SObj) and "halfturns" in r.fields else r
-        chk.prove_paths(f"angle.{name}:{want}", e.explore(t2), lambda p, want=want: z3.BoolVal(p.kind == "return" and norm(un(p.value)) == want), func=f"{AN}:angle.{name}")
+        chk.prove_paths(f"angle.{name}:{want}", e.explore(t2), lambda p, want=want: z3.BoolVal(p.kind == "return" and (norm(un(p.value)) == want or (want[0] == "mul" and norm(un(p.value)) == (want[0], want[2], want[1])))), func=f"{AN}:angle.{name}",
+                        replay=lambda m_, name=name: {"script": REPLAY_ANGLE, "input": {"op": name}})
     e.models.pop(f"{AN}:py", None)
     chk.use_engine(e)
+
+
+REPLAY_ANGLE = r'''
+import guppy_plainbool
+import math, tempfile, importlib.util, os, sys, shutil
+src = """from guppylang import guppy
+from guppylang.std.angles import angle
+from guppylang.std.builtins import result
+@guppy
+def main() -> None:
+    a = angle(0.3)
+    result("__mul__", float(a * 2.5))
+    result("__rmul__", float(2.5 * a))
+    result("__truediv__", float(a / 2.5))
+    result("__rtruediv__", float(2.5 / a))
+    result("__float__", float(a))
+    result("__eq__", 1.0 if a == angle(0.3) else 0.0)
+"""
+I = INPUT
+d = tempfile.mkdtemp(dir=os.environ.get("TMPDIR", "/var/tmp")); fn = os.path.join(d, "replay_c20a.py"); open(fn, "w").write(src)
+spec = importlib.util.spec_from_file_location("replay_c20a", fn); m = importlib.util.module_from_spec(spec); sys.modules["replay_c20a"] = m
+spec.loader.exec_module(m)
+ent = dict(list(m.main.emulator(n_qubits=1).run().results)[0].entries)
+shutil.rmtree(d, ignore_errors=True)
+h, k = 0.3, 2.5
+want = {"__mul__": h * k * math.pi, "__rmul__": h * k * math.pi, "__truediv__": h / k * math.pi, "__rtruediv__": k / h * math.pi, "__float__": h * math.pi, "__eq__": 1.0}[I["op"]]
+got = float(ent[I["op"]])
+print(json.dumps({"violates": abs(got - want) > 1e-9, "observed": got, "required": want, "detail": f"angle({h}) {I['op']} {k} on the emulator: {got} radians, required {want}"}))
+'''
 
 
 def functional_wrappers(chk):
